@@ -176,6 +176,34 @@ def negate(v):
     return ('not', v)
 
 
+def _negativity(t):
+    """number of negative atoms (not / != / is not / not in) of a test"""
+    if isinstance(t, tuple) and t:
+        if t[0] == 'not':
+            return 1 + _negativity(t[1])
+        if t[0] == 'cmp':
+            return 1 if t[1] in ('NotEq', 'IsNot', 'NotIn') else 0
+        if t[0] in ('and', 'or'):
+            return sum(_negativity(x) for x in t[1:])
+    return 0
+
+
+def negate_deep(t):
+    if isinstance(t, tuple) and t and t[0] in ('and', 'or'):
+        parts = tuple(sorted((negate_deep(x) for x in t[1:]), key=_key))
+        return ('or' if t[0] == 'and' else 'and',) + parts
+    return negate(t)
+
+
+def mk_ifexp(test, body, orelse):
+    """`a if c else b` and `b if not c else a` are one expression: the test is kept in its more positive spelling."""
+    nt = negate_deep(test)
+    a, b = _negativity(test), _negativity(nt)
+    if b < a or (b == a and _key(nt) < _key(test)):
+        return ('ifexp', nt, orelse, body)
+    return ('ifexp', test, body, orelse)
+
+
 class Normalizer(object):
     def __init__(self, env=None, resolver=None, transparent_calls=(), keep_casts=False, ordered_add=False):
         """env: name -> normal form (or AST) substituted for Names.
@@ -305,7 +333,7 @@ class Normalizer(object):
         return ('and',) + tuple(sorted(parts, key=_key))
 
     def n_IfExp(self, e):
-        return ('ifexp', self.n(e.test), self.n(e.body), self.n(e.orelse))
+        return mk_ifexp(self.n(e.test), self.n(e.body), self.n(e.orelse))
 
     def n_Call(self, e):
         d = dotted(e.func)
@@ -355,8 +383,8 @@ class Normalizer(object):
             pos_args = []
         if len(e.args) == 1 and not e.keywords and isinstance(e.args[0], ast.IfExp) and d:
             ie = e.args[0]
-            return ('ifexp', self.n(ie.test), self.n(ast.Call(func=e.func, args=[ie.body], keywords=[])),
-                    self.n(ast.Call(func=e.func, args=[ie.orelse], keywords=[])))
+            return mk_ifexp(self.n(ie.test), self.n(ast.Call(func=e.func, args=[ie.body], keywords=[])),
+                            self.n(ast.Call(func=e.func, args=[ie.orelse], keywords=[])))
         args = [self.n(a) for a in pos_args]
         kws = tuple(sorted([(k.arg or '**', self.n(k.value)) for k in e.keywords] + extra_kw))
         if d in self.transparent and len(e.args) == 1 and not [k for k in e.keywords if k.arg != 'dtype']:
@@ -479,6 +507,8 @@ def renorm(t):
         return negate(renorm(t[1]))
     if h in ('and', 'or'):
         return (h,) + tuple(sorted({_key(renorm(x)): renorm(x) for x in t[1:]}.values(), key=_key))
+    if h == 'ifexp' and len(t) == 4:
+        return mk_ifexp(renorm(t[1]), renorm(t[2]), renorm(t[3]))
     return tuple(renorm(x) if isinstance(x, tuple) else x for x in t)
 
 
